@@ -145,12 +145,18 @@ def classify(fam, k, clause):
     sig = "reject:" + ev.get("e", "?")
     if clause:
         sig += ":" + clause.replace("Ret:", "")
+    j = k
+    while j >= 0 and fam[j]["e"] != "Call":
+        j -= 1
+    call = fam[j] if j >= 0 else {}
+    body = fam[j + 1:k]
+    if ev.get("e") != "Return":
+        sig += ":after-" + (body[-1]["e"] if body else "Call")
+        done = sum(1 for r in body if r["e"] == ("Grad" if call.get("mode") == "const" else "Func")) - 1
+        newstep = ("Grad",) if call.get("mode") == "const" else ("Func", "Proj")
+        if ev.get("e") in newstep and done >= max(call.get("cap", 0), 0):
+            sig += ":cap-already-reached"
     if ev.get("e") == "Return":
-        j = k
-        while j >= 0 and fam[j]["e"] != "Call":
-            j -= 1
-        call = fam[j] if j >= 0 else {}
-        body = fam[j + 1:k]
         if clause and "x-is" in clause:
             earlier = [r["x"] for r in body if r["e"] in ("Func", "Grad")]
             if ev["x"] in earlier[:-1] or ev["x"] == call.get("x"):
@@ -172,7 +178,8 @@ def validate_file(path):
         rounds += 1
         curp = path + ".cur%d" % rounds
         vf.write_ndjson(curp, [r for f in fams for r in f])
-        r = vf.run_tlc("GradDescentTrace.tla", "GradDescentTrace.cfg", workers=1, timeout=1500, env={"TRACE": curp}, xmx="3g")
+        r = vf.run_tlc("GradDescentTrace.tla", "GradDescentTrace.cfg", workers=1, timeout=1500, xmx="3g", metadir=curp + ".meta",
+                       env={"TRACE": curp, "JAVA_TOOL_OPTIONS": "-XX:TieredStopAtLevel=1"})   # short-lived JVMs: skip the C2 compiler
         gen += r.generated
         dist += r.distinct
         if r.timed_out:
